@@ -403,10 +403,15 @@ class Sizes:
                         return self.lin(b, st).scale(len(a[1]))
             if x[0] == 'call' and x[1] == 'struct.pack' and x[2]:
                 return self.lin(('call', 'struct.calcsize', (x[2][0],), ()), st)
-            if x[0] == 'call' and x[1] == 'bytes' and len(x[2]) == 1:
+            if x[0] == 'call' and x[1] == 'bytes' and len(x[2]) == 1 and not (is_const(x[2][0]) and isinstance(x[2][0][1], int)):
                 return self.lin(('call', 'len', (x[2][0],), ()), st)
             if x[0] == 'call' and x[1] in ('bytearray', 'bytes', 'list') and not x[2]:
                 return LinS(const=0)
+            if x[0] == 'call' and x[1] in ('bytearray', 'bytes') and len(x[2]) == 1 and is_const(x[2][0]) and isinstance(x[2][0][1], int) \
+                    and not isinstance(x[2][0][1], bool) and x[2][0][1] >= 0:
+                return LinS(const=x[2][0][1])          # bytes(n): n zero bytes
+            if x[0] == 'bin' and x[1] == '+':
+                return self.lin(('call', 'len', (x[2],), ()), st) + self.lin(('call', 'len', (x[3],), ()), st)
             if x[0] == 'accum':
                 init, it, elem, meth = x[1], x[2], x[3], x[4]
                 n_iter = self.lin(('call', 'len', (it,), ()), st)
